@@ -8,12 +8,55 @@ PID = "C16"
 KINDS = ["empty", "valid", "random", "readonly", "short", "leftover", "noI", "nobucket", "noSnoI", "emptybolt", "otherbolt", "boltdata"]
 
 
+def create_command(scratch):
+    """`updog create` (both modes) onto an existing output path, with a well-formed and with
+    malformed input: non-zero exit and the existing file byte for byte unchanged."""
+    import hashlib, os, subprocess
+    d = scratch.path("c16cmd")
+    os.makedirs(d, exist_ok=True)
+    inputs = {"well-formed": b"a,b\n1,2\n3,4\n", "ragged": b"a,b\n1,2\n3\n", "ragged-first": b"a,b\n1\n", "bare-quote": b'a,b\n1,x"y\n',
+              "header-only": b"a,b\n", "empty": b"", "ragged-late": b"a,b\n" + b"1,2\n" * 1500 + b"3\n"}
+    valid = os.path.join(d, "valid.updog")
+    open(os.path.join(d, "ok.csv"), "wb").write(inputs["well-formed"])
+    p = subprocess.run([scratch.updog_binary(), "create", "-o", valid, os.path.join(d, "ok.csv")], cwd=d, env=core.GOENV, capture_output=True, timeout=120)
+    if p.returncode != 0:
+        raise core.FrameworkError("updog create failed on a well-formed CSV: %s" % p.stderr.decode("utf-8", "replace")[-300:])
+    existing = {"valid-index": open(valid, "rb").read(), "empty-file": b"", "other-bytes": b"precious bytes, not an index" * 40}
+    bad, n = [], 0
+    for iname, data in inputs.items():
+        csvp = os.path.join(d, "in-%s.csv" % iname)
+        open(csvp, "wb").write(data)
+        for ename, content in existing.items():
+            for big in (False, True):
+                out = os.path.join(d, "out-%s-%s-%d.updog" % (iname, ename, big))
+                open(out, "wb").write(content)
+                h0 = hashlib.sha256(content).hexdigest()
+                try:
+                    rc = subprocess.run([scratch.updog_binary(), "create"] + (["-b"] if big else []) + ["-o", out, csvp], cwd=d, env=core.GOENV, capture_output=True, timeout=60).returncode
+                except subprocess.TimeoutExpired:
+                    rc = -9999
+                n += 1
+                try:
+                    h1 = hashlib.sha256(open(out, "rb").read()).hexdigest()
+                except OSError:
+                    h1 = "ABSENT"
+                if rc == 0 or h1 != h0:
+                    bad.append(("updog create%s with %s input onto an existing output (%s): exit %s, existing file %s" % (
+                        " -b" if big else "", iname, ename, "status %d" % rc if rc != -9999 else "never", "unchanged" if h1 == h0 else ("REMOVED" if h1 == "ABSENT" else "MODIFIED")),
+                        {"input_csv_hex": data[:400].hex(), "existing": ename, "big": big}))
+                if os.path.exists(out):
+                    os.remove(out)
+    return n, bad
+
+
 def run(rep, scratch, tier, seed, replay=None):
     rng = random.Random(seed)
     lines, cases = [], []
     dss = [dp.Dataset("w0", [{b"a": b"1"}, {b"a": b"2", b"b": b"x"}], "tiny"), dp.shaped_dataset(rng, "w1", 1200)]
     for i in range(3 if tier == "quick" else 250):
         dss.append(dp.small_dataset(rng, "w%d" % (i + 2), hostile=True))
+    # writers that hold nothing to write: no rows at all, rows without any column
+    dss += [dp.Dataset("wnone", [], "no-rows"), dp.Dataset("wbare", [{}, {}, {}], "rows-without-columns")]
     k = 0
     for ds in dss:
         if any(0 in c for r in ds.rows for c in r):
@@ -69,9 +112,15 @@ def run(rep, scratch, tier, seed, replay=None):
     for cid, msg in bad[:3]:
         blk = [l for l in lines if l.split()[0] in ("DATASET", "R") or l.split()[1] == cid]
         rep.violation("monitor:file-hash", msg, {"lines": blk[:400], "case": cid})
+    ncmd = 0
+    if not replay:
+        ncmd, cmd_bad = create_command(scratch)
+        for msg, extra in cmd_bad[:3]:
+            rep.violation("monitor:file-hash", msg, extra)
+        bad += cmd_bad
     rep.coverage.update({
-        "evaluations": len(cases), "distinct_nontrivial": len(set((w, x, y) for _, w, x, y in cases)),
-        "rule": "pre-existing output contents %s x {IndexWriter.Flush, the exclusive-create open of create --big} x writer contents: must fail and leave the SHA-256 unchanged; valid index x {on demand, preloaded, cached, cached+preloaded}: three rounds of open, 30-60 probe queries, GetSchema, Close (one double Close): SHA-256 and size unchanged. Non-trivial = distinct (kind, path, option) combinations." % KINDS,
+        "evaluations": len(cases) + ncmd, "create_command_runs": ncmd, "distinct_nontrivial": len(set((w, x, y) for _, w, x, y in cases)),
+        "rule": "pre-existing output contents %s x {IndexWriter.Flush, the exclusive-create open of create --big} x writer contents: must fail and leave the SHA-256 unchanged; `updog create` (both modes) x {well-formed, ragged early / late, bare quote, header only, empty} input onto an existing valid index / empty file / other bytes: non-zero exit, file unchanged; valid index x {on demand, preloaded, cached, cached+preloaded}: three rounds of open, 30-60 probe queries, GetSchema, Close (one double Close): SHA-256 and size unchanged. Non-trivial = distinct (kind, path, option) combinations." % KINDS,
         "failures": len(bad), "samples": [lines[next(i for i, l in enumerate(lines) if l.startswith("CLOBBER"))]],
     })
     rep.assumptions += ["O_EXCL / O_CREATE semantics of the kernel are trusted", "the model theorems for this property are small (Props/C16.v); the assurance comes mostly from this file-hash comparison"]
